@@ -62,14 +62,17 @@ func init() {
 			"session = one set of long-lived values (decode receivers, validator closures, options values, getter, variable reader, a receive buffer refilled in place) serving a sequence of inputs of one kind, with the same input twice in a row and again after another one, and receivers refilled with growing and shrinking arrays; " +
 			"concurrent = 8 goroutines starting the same entry point together, each on its own inputs (half of them fresh well-formed objects in every call) with its own receivers and collaborators, judged for panics (recovered per goroutine), fatal runtime errors, the batch allocation budget and non-termination; " +
 			"amplify = well-formed encoded containers of high expansion ratio (gzip, zlib, raw DEFLATE, LZW in both bit orders, bzip2, a zip archive; decoding to 64 KiB .. 128 MiB (192 MiB thorough) of zeros, 0xff, the genuine endorsement once / repeated / followed by a huge unknown field, a genuine quote or event log; gzip also with forged ISIZE, flipped CRC, cut trailer, 16 members, all optional header fields, nested twice), each verified by the harness's own constant-memory decoder, " +
-			"as the bytes themselves (cross-fed to all entry points), as the GCE entry of the certificate table (attestation proto extras, TPM wrapper, raw report + table, table alone, base64 text), as raw RIM locator of an event log, and served by the Getter / a UEFI variable file / a raw locator to extraction followed by verify.Endorsement; every call is paired with a control twin (same entry point, options and position; the same container holding PRNG bytes stored uncompressed, never shorter than the stream) and rule `amplification` fires when the call allocated more than 64 MiB + 64 x max(input size, allocation of the control twin's call). Monitor: core.Guard per call: panic, thread CPU > 2 s + 1 s/MiB, allocated bytes > 64 MiB + 4096*len(input); " +
+			"as the bytes themselves (cross-fed to all entry points), as the GCE entry of the certificate table (attestation proto extras, TPM wrapper, raw report + table, table alone, base64 text), as raw RIM locator of an event log, and served by the Getter / a UEFI variable file / a raw locator to extraction followed by verify.Endorsement; every call is paired with a control twin (same entry point, options and position; the same container holding PRNG bytes stored uncompressed, never shorter than the stream) and rule `amplification` fires when the call allocated more than 64 MiB + 64 x max(input size, allocation of the control twin's call); " +
+			"certzoo = every certificate slot of the golden measurement (cert as DER, ca_bundle and sev_snp.ca_bundle as PEM) holding a well-formed X.509 certificate of every key algorithm and size (RSA 512..4096 and e=3, ECDSA P-224..P-521, Ed25519, X25519 / unknown algorithm with no parsed key), issued by the root, by a stranger, expired, not yet valid, a CA, with 6 signature shapes, in three carriers; " +
+			"tdxextract = TdxValidate without an endorsement from the caller (the extraction branch) while the process's default HTTP transport is a double answering 200 with a body chosen by the case, over TDX quotes in proto form with every populated field of the message tree absent / empty / of 1, 8, n-1, n+1, 2n bytes / maximal (bare and inside a TPM attestation), the genuine TDX seeds and mutants of them. Monitor: core.Guard per call: panic, thread CPU > 2 s + 1 s/MiB, allocated bytes > 64 MiB + 4096*len(input); " +
 			"process-fatal failures (out of memory under ulimit -v 6 GiB, stack overflow) are attributed by the supervisor to the case logged before the call. " +
 			"non-trivial = a call on a non-genuine input that returned; distinct cells = (seed, operator class, entry point, returned ok|error)",
 		Assumptions: []string{
 			"the budgets are the check's reading of 'out of proportion to the size of its input': CPU 2 s + 1 s/MiB, allocation 64 MiB + 4096 bytes per input byte; genuine inputs need 3 orders of magnitude less (genuine_* maxima in evidence)",
 			"a panic or runaway allocation inside a dependency (go-sev-guest, go-tdx-guest, protobuf, crypto/x509) counts when it is reached through one of the listed repository entry points: C07 is about what the relying party's call does",
 			"proto-typed entry points (SevPolicy, TdxPolicy, Inspect*, SevValidate with an endorsement option) receive proto.Unmarshal(input) as the CLI does; inputs that do not unmarshal are counted as not applicable for them",
-			"TdxValidate and extract.Endorsement are always given an endorsement / a recording getter and never a quote provider, so no call reaches the network, /sys or a TEE device; exel.Locate reads variables from a scratch efivarfs look-alike",
+			"TdxValidate and extract.Endorsement are given an endorsement / a recording getter and never a quote provider, so no call reaches the network, /sys or a TEE device; exel.Locate reads variables from a scratch efivarfs look-alike. The one exception is the tdxextract family: TdxValidate without an endorsement builds extract.DefaultOptions(), i.e. it tries to read /sys/kernel/security/tpm0/binary_bios_measurements (absent on the test machine; if present its content would be parsed) and uses go-sev-guest's default getter (http.Get), which the harness serves by replacing http.DefaultTransport for the duration of the call with a double that always answers 200",
+			"certzoo family: a certificate whose signature is not valid or whose key nobody holds is still a byte string a peer can send; RSA-shaped keys of the zoo are random odd moduli, the X25519 / unknown-algorithm certificates are Ed25519 certificates with a rewritten algorithm identifier (well-formed for the parser, PublicKey == nil)",
 			"EfiVarFSReader.ReadVariable is driven only through exel.Locate (the function applied to untrusted locator bytes)",
 			"the genuine endorsement is signed with fixed embedded test keys and a deterministic salt stream so that every input is a function of (seed, case index) only",
 			"InspectMask is exercised with a fixed list of well-formed field paths; hostile paths belong to C19",
